@@ -602,9 +602,82 @@ func init() {
 			{"Q2", "URICmpShort's expression is invariant under swapping its two (uri,buffer) pairs modulo commutativity", ruleQ2},
 			{"Q3", "component -> comparator table: type/port ==, user/password bytes.Equal, host and parameter/header names and values CmpEq; URIParamResolve's six names under their own length cases via CmpEq; type flags distinct bits", ruleQ3},
 			{"Q4", "the boolean result of URICmp (URICmpShort inlined) tabulated over all assignments of comparison and flag atoms is monotone non-decreasing in each of the six skip flags, every comparison is needed when nothing is skipped, and each flag guards the component it names", ruleQ4},
+			{"Q6", "the raw list comparisons parse into fixed-capacity temporary arrays: the overflow indicator of both lists must be consulted, otherwise elements beyond the capacity are dropped silently and the verdict depends on element order", ruleQ6},
+			{"Q7", "URIHdrsLstEq: equal counts are required before the one-directional containment loop (necessary for symmetry), and a missing header returns false", ruleQ7},
 			{"Q5", "the must-be-in-both mask is exactly user|ttl|method|maddr and is tested before the pairwise loop", ruleQ5},
 		},
 		Assumptions: []string{"bytescase.CmpEq / bytes.Equal summaries (symmetric, reflexive)"},
 		NotDecided:  "reflexivity, symmetry and permutation invariance of the list comparisons (they hold only for duplicate-free lists, a value precondition)",
 	})
+}
+
+// Q6: the fixed-capacity temporary lists of the raw comparisons must not drop elements silently:
+// the overflow indicator (More()) of both lists has to be consulted before the list comparison.
+func ruleQ6(c *Ctx) {
+	for _, fnName := range []string{"URIParamsEq", "URIHdrsEq"} {
+		fd := c.Decls[fnName]
+		if fd == nil {
+			c.fail("Q6", fnName, token.NoPos, "not found")
+			continue
+		}
+		// fixed arrays attached through Init
+		arrays := 0
+		ast.Inspect(fd.Body, func(n ast.Node) bool {
+			if vs, ok := n.(*ast.ValueSpec); ok {
+				if at, ok := vs.Type.(*ast.ArrayType); ok && at.Len != nil {
+					arrays += len(vs.Names)
+				}
+			}
+			return true
+		})
+		more := strings.Count(c.src(fd.Body), ".More()")
+		if arrays == 0 {
+			c.ok("Q6", fnName+":overflow-silent", fd.Pos(), "no fixed-capacity temporary list")
+			continue
+		}
+		c.check(more >= 2, "Q6", fnName+":overflow-silent", fd.Pos(),
+			fmt.Sprintf("%d fixed-capacity temporary arrays are filled by the list parser but the overflow indicator More() is consulted %d times: elements beyond the capacity are dropped silently, so the verdict depends on the order of the elements", arrays, more))
+	}
+}
+
+// Q7: URIHdrsLstEq checks containment of l1 in l2 only; equality of the two counts before the loop is what
+// makes the relation symmetric (for duplicate-free lists).
+func ruleQ7(c *Ctx) {
+	fd := c.Decls["URIHdrsLstEq"]
+	if fd == nil {
+		c.fail("Q7", "URIHdrsLstEq", token.NoPos, "not found")
+		return
+	}
+	ok := false
+	for _, s := range fd.Body.List {
+		if _, isLoop := s.(*ast.ForStmt); isLoop {
+			break
+		}
+		is, isIf := s.(*ast.IfStmt)
+		if !isIf {
+			continue
+		}
+		b, isB := is.Cond.(*ast.BinaryExpr)
+		if !isB || b.Op != token.NEQ {
+			continue
+		}
+		l, r := c.src(b.X), c.src(b.Y)
+		cnt := func(s string) string {
+			for _, suf := range []string{".HNo()", ".N"} {
+				if strings.HasSuffix(s, suf) {
+					return suf
+				}
+			}
+			return ""
+		}
+		if cnt(l) != "" && cnt(l) == cnt(r) && l != r {
+			if ret, isRet := is.Body.List[0].(*ast.ReturnStmt); isRet && c.src(ret.Results[0]) == "false" {
+				ok = true
+			}
+		}
+	}
+	c.check(ok, "Q7", "URIHdrsLstEq:counts", fd.Pos(), "different header counts return false before the one-directional containment loop")
+	// the loop is a containment test of l1 in l2: every l1 header must be found
+	body := c.src(fd.Body)
+	c.check(strings.Contains(body, "if !found { return false }"), "Q7", "URIHdrsLstEq:containment", fd.Pos(), "an l1 header without an equal-named, equal-valued l2 header returns false")
 }
